@@ -22,7 +22,7 @@ FLOORS = {'quick': {'view-ctrlpts': 800, 'view-weights': 800, 'view-ctrlptsw': 8
                     'convert': 100, 'grid-weight': 150},
           'thorough': {'view-ctrlpts': 8000, 'view-ctrlptsw': 8000, 'convert': 1000}}
 MANDATORY_TAGS = ['pdim1', 'pdim2', 'pdim3', 'op:restructure', 'op:ctrlpts', 'op:weights', 'op:ctrlptsw', 'op:set_ctrlpts', 'op:scaleW',
-                  'read-then-write', 'grid', 'convert', 'files:non-square']
+                  'read-then-write', 'grid', 'convert', 'files:non-square', 'write-back-kept-weights', 'write-back-kept-ctrlpts', 'convert:unnormalized']
 TECHNIQUE = ("runtime monitoring: shadow-model oracle (P, W) compared with all three views after every step of seeded "
              "setter/getter histories; exact-product oracles on the helper conversions; reference-model evaluation for "
              "conversions and weight scaling")
@@ -40,7 +40,8 @@ def gen(rng, tier, shard, nshards):
         if i % 3 == 0:
             yield {'kind': 'helpers', 'seed': rng.randrange(1 << 30)}
         if i % 3 == 1:
-            yield {'kind': 'convert', 'sd': G.rand_shape(rng, rng.choice([1, 2, 3]), rational=False, maxextra=3, maxdeg=3),
+            yield {'kind': 'convert', 'sd': G.rand_shape(rng, rng.choice([1, 2, 3]), rational=False, maxextra=3, maxdeg=3,
+                                                         normalize=rng.random() < 0.6),
                    'seed': rng.randrange(1 << 30)}
         if i % 3 == 2:
             yield {'kind': 'grid', 'seed': rng.randrange(1 << 30)}
@@ -81,6 +82,7 @@ def check_history(case, ctx):
     W = list(sd['weights'])
     ctx.tag('pdim%d' % pdim)
     writes = 0
+    kept = {}
     if rng.random() < 0.5:
         views_ok(ctx, o, P, W, 'construction')
     last_read = False
@@ -92,7 +94,10 @@ def check_history(case, ctx):
         if op == 'read':
             # partial reads populate the caches in different orders
             which = rng.choice(['ctrlpts', 'weights', 'ctrlptsw'])
-            getattr(o, which)
+            got = getattr(o, which)
+            if which != 'ctrlptsw' and rng.random() < 0.5:
+                # the caller keeps the list it was handed (no copy) and writes it back later, after other edits
+                kept[which] = (got, [x if which == 'weights' else list(x) for x in got])
             last_read = True
             continue
         last_read = False
@@ -127,12 +132,26 @@ def check_history(case, ctx):
             P = [[c / p[-1] for c in p[:-1]] for p in pw_now]
             W = [p[-1] for p in pw_now]
             n = len(pw_now)
+            kept.clear()
             sd = dict(sd, sizes=G.sizes_of(o), degrees=G.degrees_of(o))
             writes += 1
             if not views_ok(ctx, o, P, W, 'step %d (%s)' % (step, which)):
                 return
             continue
-        if op == 'ctrlpts':
+        if op in kept and len(kept[op][1]) == n and writes >= 1 and rng.random() < 0.6:
+            # write back the very list object read earlier (its content as it was when read is what the caller means)
+            obj, snap = kept.pop(op)
+            ctx.tag('write-back-kept-' + op)
+            if op == 'ctrlpts':
+                P = [list(p) for p in snap]
+            else:
+                W = list(snap)
+            ok = len(obj) == len(snap)
+            if not ctx.check(ok, 'kept-view-emptied', 'the %s list handed out earlier now has %d entries (had %d): a later edit emptied the '
+                             "caller's list, so writing it back cannot round-trip" % (op, len(obj), len(snap)), what='kept-view'):
+                return
+            setattr(o, op, obj)
+        elif op == 'ctrlpts':
             P = [[rng.uniform(-10, 10) for _ in range(dim)] for _ in range(n)]
             o.ctrlpts = [list(p) for p in P]
         elif op == 'weights':
@@ -225,7 +244,7 @@ def check_convert(case, ctx):
     o = G.build(sd)
     S = G.defn_of(o)
     sc = so.scale_of_defn(S)
-    ctx.tag('convert')
+    ctx.tag('convert', 'convert:normalized' if sd['normalize_kv'] else 'convert:unnormalized')
     ctx.nontriv(True)
     prs = so.probe_params(rng, S, nrand=4, maxn=8)
     r = convert.bspline_to_nurbs(o)
